@@ -120,6 +120,162 @@ func runC10(c *Ctx) {
 
 	// ---------------------------------------------------------------- R2
 	c.rule("R2", "the deep-copy helper copies every record with dns.Copy into freshly made slices of a new message", 5)
+	checkCopyHelperDeep(c)
+
+	// ---------------------------------------------------------------- R3
+	c.rule("R3", "a cache hit gets the id of the query it answers before it becomes the response", 1)
+	get := c.fn(relCachePlugin, "", "getRespFromCache")
+	checkHitID(c)
+
+	// ---------------------------------------------------------------- R4
+	c.rule("R4", "every message returned by the lookup is a Copy() of the stored message", 2)
+	if get != nil {
+		for _, r := range returnsOf(get) {
+			v := returnedValues(r)[0]
+			if isNilConst(v) {
+				continue
+			}
+			good := false
+			if cl, ok := v.(*ssa.Call); ok && callName(cl) == "(*github.com/miekg/dns.Msg).Copy" {
+				if k, ok := loadedField(cl.Call.Args[0]); ok && k == respF {
+					good = true
+				}
+			}
+			c.check(good, "lookup-returns-copy@"+funcName(get), instrPos(r), "returns stored.Copy()", "the lookup returns "+exprStr(v)+" which is not a fresh Copy() of the stored message on this path")
+		}
+	}
+
+	// ---------------------------------------------------------------- R5
+	c.rule("R5", "the background refresh runs on a context copy made before the goroutine can start", 1)
+	checkRefreshOnEarlyCopy(c)
+
+	// ---------------------------------------------------------------- R6
+	c.rule("R6", "the private copy is taken before the caller gets the response back: saveRespToCache is never called from a goroutine started for it", 2)
+	if save := c.fn(relCachePlugin, "", "saveRespToCache"); save != nil {
+		for _, f := range fns {
+			fn := f
+			eachInstr(f, func(in ssa.Instruction) {
+				ci, ok := in.(ssa.CallInstruction)
+				if !ok || staticCallee(ci) != save {
+					return
+				}
+				key := "store-synchronous@" + funcName(fn)
+				_, isGo := in.(*ssa.Go)
+				_, isDefer := in.(*ssa.Defer)
+				spawned := false
+				if par := fn.Parent(); par != nil {
+					eachInstr(par, func(y ssa.Instruction) {
+						if g, ok := y.(*ssa.Go); ok {
+							if mc, ok := g.Call.Value.(*ssa.MakeClosure); ok && mc.Fn == ssa.Value(fn) {
+								spawned = true
+							}
+						}
+					})
+				}
+				c.check(!isGo && !isDefer && !spawned, key, instrPos(in), "the response is copied into the cache synchronously", "the response is copied into the cache from a goroutine (or deferred): by then the caller and later plugins may already have rewritten it, and what they wrote is what other queries are served")
+			})
+		}
+	}
+
+}
+
+// checkHitID (C10-R3, C03-R5): every cached message that becomes the response carries the id of the current query.
+// Accepted: the id is set in Exec on the hit path (before SetResponse, or right after it before the next chain step),
+// or the lookup itself sets it on every non-nil return from a query message it was handed.
+func checkHitID(c *Ctx) {
+	get := c.fn(relCachePlugin, "", "getRespFromCache")
+	// lookup-side form
+	lookupSets := get != nil
+	if get != nil {
+		n := 0
+		for _, r := range returnsOf(get) {
+			v := returnedValues(r)[0]
+			if isNilConst(v) {
+				continue
+			}
+			n++
+			okR := false
+			eachInstr(get, func(x ssa.Instruction) {
+				st, ok := x.(*ssa.Store)
+				if !ok || !instrDominates(x, r) {
+					return
+				}
+				if k, ok := fieldKey(st.Addr); ok && k == "github.com/miekg/dns.MsgHdr.Id" && fieldBase(st.Addr) == v {
+					if k2, ok := loadedField(st.Val); ok && k2 == "github.com/miekg/dns.MsgHdr.Id" {
+						if ld, ok := st.Val.(*ssa.UnOp); ok {
+							if _, isParam := fieldBase(ld.X).(*ssa.Parameter); isParam {
+								okR = true
+							}
+						}
+					}
+				}
+			})
+			if !okR {
+				lookupSets = false
+			}
+		}
+		if n == 0 {
+			lookupSets = false
+		}
+	}
+	if ex := c.fn(relCachePlugin, "Cache", "Exec"); ex != nil && get != nil {
+		eachInstr(ex, func(in ssa.Instruction) {
+			ci, ok := in.(*ssa.Call)
+			if !ok || callName(ci) != "(*pkg/query_context.Context).SetResponse" {
+				return
+			}
+			resp := ci.Call.Args[1]
+			// resp comes from the lookup
+			fromGet := false
+			if e, ok := resp.(*ssa.Extract); ok {
+				if cl, ok := e.Tuple.(*ssa.Call); ok && staticCallee(cl) == get {
+					fromGet = true
+				}
+			}
+			idSet := false
+			eachInstr(ex, func(x ssa.Instruction) {
+				st, ok := x.(*ssa.Store)
+				if !ok {
+					return
+				}
+				// either before SetResponse, or right after it on every path to the next chain step / exit
+				if !instrDominates(x, in) {
+					if !instrDominates(in, x) {
+						return
+					}
+					if _, leak := reachAvoiding(in, func(y ssa.Instruction) bool {
+						if isReturn(y) {
+							return true
+						}
+						cc, ok := y.(*ssa.Call)
+						return ok && strings.HasSuffix(callName(cc), ".ExecNext")
+					}, func(y ssa.Instruction) bool { return y == x }); leak {
+						return
+					}
+				}
+				if k, ok := fieldKey(st.Addr); ok && k == "github.com/miekg/dns.MsgHdr.Id" && fieldBase(st.Addr) == resp {
+					if k2, ok := loadedField(st.Val); ok && k2 == "github.com/miekg/dns.MsgHdr.Id" {
+						if ld, ok := st.Val.(*ssa.UnOp); ok {
+							if cl, ok := fieldBase(ld.X).(*ssa.Call); ok && callName(cl) == "(*pkg/query_context.Context).Q" {
+								idSet = true
+							}
+						}
+					}
+				}
+			})
+			c.check(fromGet && (idSet || lookupSets), "hit-id@"+funcName(ex), instrPos(in), "cached.Id = q.Id is executed on the hit path before the response is visible to the next chain step",
+				"the cached answer becomes the response without receiving the id of the current query")
+		})
+	}
+
+}
+
+// checkCopyHelperDeep (C10-R2, C03-R12): the cache's copy helper builds a new message whose slices are freshly made and
+// whose records are dns.Copy'd — nothing of the stored message shares memory with the live response.
+func checkCopyHelperDeep(c *Ctx) {
+	p := c.P
+	_ = p
+	cno := c.fn(relCachePlugin, "", "copyNoOpt")
 	if cno != nil {
 		src := cno.Params[0]
 		// result is a new message
@@ -253,32 +409,13 @@ func runC10(c *Ctx) {
 			}
 		}
 	}
+}
 
-	// ---------------------------------------------------------------- R3
-	c.rule("R3", "a cache hit gets the id of the query it answers before it becomes the response", 1)
-	get := c.fn(relCachePlugin, "", "getRespFromCache")
-	checkHitID(c)
-
-	// ---------------------------------------------------------------- R4
-	c.rule("R4", "every message returned by the lookup is a Copy() of the stored message", 2)
-	if get != nil {
-		for _, r := range returnsOf(get) {
-			v := returnedValues(r)[0]
-			if isNilConst(v) {
-				continue
-			}
-			good := false
-			if cl, ok := v.(*ssa.Call); ok && callName(cl) == "(*github.com/miekg/dns.Msg).Copy" {
-				if k, ok := loadedField(cl.Call.Args[0]); ok && k == respF {
-					good = true
-				}
-			}
-			c.check(good, "lookup-returns-copy@"+funcName(get), instrPos(r), "returns stored.Copy()", "the lookup returns "+exprStr(v)+" which is not a fresh Copy() of the stored message on this path")
-		}
-	}
-
-	// ---------------------------------------------------------------- R5
-	c.rule("R5", "the background refresh runs on a context copy made before the goroutine can start", 1)
+// checkRefreshOnEarlyCopy (C10-R5, C04-R4, C05-R11): the lazy refresh runs on a copy of the query context that was taken
+// in doLazyUpdate itself, before the singleflight goroutine can start (the live context goes on through the chain:
+// its question may be rewritten and the stale answer is attached to it).
+func checkRefreshOnEarlyCopy(c *Ctx) {
+	p := c.P
 	if dl := c.fn(relCachePlugin, "Cache", "doLazyUpdate"); dl != nil {
 		var doChan *ssa.Call
 		eachInstr(dl, func(in ssa.Instruction) {
@@ -315,124 +452,4 @@ func runC10(c *Ctx) {
 			c.check(good, "refresh-on-copy@"+funcName(dl), instrPos(doChan), "refresh runs on qCtx.Copy() taken before the goroutine starts", why+": the refresh writes into the context of the query being answered")
 		}
 	}
-
-	// ---------------------------------------------------------------- R6
-	c.rule("R6", "the private copy is taken before the caller gets the response back: saveRespToCache is never called from a goroutine started for it", 2)
-	if save := c.fn(relCachePlugin, "", "saveRespToCache"); save != nil {
-		for _, f := range fns {
-			fn := f
-			eachInstr(f, func(in ssa.Instruction) {
-				ci, ok := in.(ssa.CallInstruction)
-				if !ok || staticCallee(ci) != save {
-					return
-				}
-				key := "store-synchronous@" + funcName(fn)
-				_, isGo := in.(*ssa.Go)
-				_, isDefer := in.(*ssa.Defer)
-				spawned := false
-				if par := fn.Parent(); par != nil {
-					eachInstr(par, func(y ssa.Instruction) {
-						if g, ok := y.(*ssa.Go); ok {
-							if mc, ok := g.Call.Value.(*ssa.MakeClosure); ok && mc.Fn == ssa.Value(fn) {
-								spawned = true
-							}
-						}
-					})
-				}
-				c.check(!isGo && !isDefer && !spawned, key, instrPos(in), "the response is copied into the cache synchronously", "the response is copied into the cache from a goroutine (or deferred): by then the caller and later plugins may already have rewritten it, and what they wrote is what other queries are served")
-			})
-		}
-	}
-
-}
-
-// checkHitID (C10-R3, C03-R5): every cached message that becomes the response carries the id of the current query.
-// Accepted: the id is set in Exec on the hit path (before SetResponse, or right after it before the next chain step),
-// or the lookup itself sets it on every non-nil return from a query message it was handed.
-func checkHitID(c *Ctx) {
-	get := c.fn(relCachePlugin, "", "getRespFromCache")
-	// lookup-side form
-	lookupSets := get != nil
-	if get != nil {
-		n := 0
-		for _, r := range returnsOf(get) {
-			v := returnedValues(r)[0]
-			if isNilConst(v) {
-				continue
-			}
-			n++
-			okR := false
-			eachInstr(get, func(x ssa.Instruction) {
-				st, ok := x.(*ssa.Store)
-				if !ok || !instrDominates(x, r) {
-					return
-				}
-				if k, ok := fieldKey(st.Addr); ok && k == "github.com/miekg/dns.MsgHdr.Id" && fieldBase(st.Addr) == v {
-					if k2, ok := loadedField(st.Val); ok && k2 == "github.com/miekg/dns.MsgHdr.Id" {
-						if ld, ok := st.Val.(*ssa.UnOp); ok {
-							if _, isParam := fieldBase(ld.X).(*ssa.Parameter); isParam {
-								okR = true
-							}
-						}
-					}
-				}
-			})
-			if !okR {
-				lookupSets = false
-			}
-		}
-		if n == 0 {
-			lookupSets = false
-		}
-	}
-	if ex := c.fn(relCachePlugin, "Cache", "Exec"); ex != nil && get != nil {
-		eachInstr(ex, func(in ssa.Instruction) {
-			ci, ok := in.(*ssa.Call)
-			if !ok || callName(ci) != "(*pkg/query_context.Context).SetResponse" {
-				return
-			}
-			resp := ci.Call.Args[1]
-			// resp comes from the lookup
-			fromGet := false
-			if e, ok := resp.(*ssa.Extract); ok {
-				if cl, ok := e.Tuple.(*ssa.Call); ok && staticCallee(cl) == get {
-					fromGet = true
-				}
-			}
-			idSet := false
-			eachInstr(ex, func(x ssa.Instruction) {
-				st, ok := x.(*ssa.Store)
-				if !ok {
-					return
-				}
-				// either before SetResponse, or right after it on every path to the next chain step / exit
-				if !instrDominates(x, in) {
-					if !instrDominates(in, x) {
-						return
-					}
-					if _, leak := reachAvoiding(in, func(y ssa.Instruction) bool {
-						if isReturn(y) {
-							return true
-						}
-						cc, ok := y.(*ssa.Call)
-						return ok && strings.HasSuffix(callName(cc), ".ExecNext")
-					}, func(y ssa.Instruction) bool { return y == x }); leak {
-						return
-					}
-				}
-				if k, ok := fieldKey(st.Addr); ok && k == "github.com/miekg/dns.MsgHdr.Id" && fieldBase(st.Addr) == resp {
-					if k2, ok := loadedField(st.Val); ok && k2 == "github.com/miekg/dns.MsgHdr.Id" {
-						if ld, ok := st.Val.(*ssa.UnOp); ok {
-							if cl, ok := fieldBase(ld.X).(*ssa.Call); ok && callName(cl) == "(*pkg/query_context.Context).Q" {
-								idSet = true
-							}
-						}
-					}
-				}
-			})
-			c.check(fromGet && (idSet || lookupSets), "hit-id@"+funcName(ex), instrPos(in), "cached.Id = q.Id is executed on the hit path before the response is visible to the next chain step",
-				"the cached answer becomes the response without receiving the id of the current query")
-		})
-	}
-
 }
